@@ -16,6 +16,15 @@ package main
 //   notyet  NotBefore = now + 120 s                        outside (not yet valid)
 //   fresh   NotBefore = now - 60 s, NotAfter = now + 120 s inside (issued a minute ago, short-lived)
 // "expired" (client leaves too) ended 24 h ago.
+//
+// Trust anchors beyond the configured CA: a third CA "S" plays the operating system's trust store.
+// Go reads the system roots once per process from SSL_CERT_FILE / SSL_CERT_DIR, so the init() below -
+// before anything has touched crypto/x509's system pool, and ONLY when the process was started for
+// one of C05's components (os.Args[1]) - points SSL_CERT_FILE at a bundle holding S alone and
+// SSL_CERT_DIR at an empty directory, loads the pool and checks that it holds exactly S.  S is
+// configured nowhere; leaves "sys" (server: names of "good"; client) are signed by it.  A peer
+// certified by S is acceptable exactly where NO CA is configured (nil pool = crypto/tls falls back
+// to the system roots, the documented default) and nowhere else.
 
 import (
 	"crypto/ecdsa"
@@ -24,6 +33,7 @@ import (
 	"crypto/x509"
 	"crypto/x509/pkix"
 	"encoding/pem"
+	"fmt"
 	"math/big"
 	"net"
 	"os"
@@ -31,6 +41,7 @@ import (
 	"sync"
 	"time"
 
+	"github.com/bokysan/socketace/v2/internal/util/cert"
 	"github.com/youmark/pkcs8"
 )
 
@@ -66,6 +77,84 @@ var (
 	c05pki     *c05PKI
 )
 
+// ---- the "operating system" trust store of the harness process (C05 components only) ----
+
+var c05Components = []string{"tlscfg", "authmatrix", "tlshist"}
+
+var (
+	c05SysCA    c05CA  // CA "S": the only system-trusted root of this process
+	c05SysCAPEM string
+	c05SysReady bool
+)
+
+func init() {
+	if len(os.Args) < 2 {
+		return
+	}
+	for _, n := range c05Components {
+		if os.Args[1] == n {
+			c05InstallSystemRoot()
+			return
+		}
+	}
+}
+
+// c05InstallSystemRoot makes CA "S" the system trust store of this process (see the file comment).
+func c05InstallSystemRoot() {
+	c05SysCA, c05SysCAPEM = c05mkCA("S", 999, time.Now())
+	dir, err := os.MkdirTemp("", "c05sys")
+	if err != nil {
+		panic(err)
+	}
+	defer os.RemoveAll(dir) // the roots are read once, below
+	bundle := filepath.Join(dir, "system-roots.pem")
+	empty := filepath.Join(dir, "certs")
+	if err := os.WriteFile(bundle, []byte(c05SysCAPEM), 0o600); err != nil {
+		panic(err)
+	}
+	if err := os.Mkdir(empty, 0o700); err != nil {
+		panic(err)
+	}
+	_ = os.Setenv("SSL_CERT_FILE", bundle)
+	_ = os.Setenv("SSL_CERT_DIR", empty)
+	pool, err := x509.SystemCertPool()
+	if err != nil || pool == nil {
+		panic(fmt.Sprintf("C05 harness: system certificate pool not available: %v", err))
+	}
+	//lint:ignore SA1019 on Linux the system pool is an ordinary pool and lists its subjects
+	if subj := pool.Subjects(); len(subj) != 1 || !pool.Equal(c05poolOf(c05SysCA.cert)) {
+		panic(fmt.Sprintf("C05 harness: the process's system trust store holds %d roots, expected exactly the harness CA S (SSL_CERT_FILE not honoured?)", len(subj)))
+	}
+	c05SysReady = true
+}
+
+func c05poolOf(cs ...*x509.Certificate) *x509.CertPool {
+	p := x509.NewCertPool()
+	for _, c := range cs {
+		p.AddCert(c)
+	}
+	return p
+}
+
+func c05mkCA(name string, serial int64, now time.Time) (c05CA, string) {
+	k := c05mustKey()
+	t := &x509.Certificate{
+		SerialNumber:          big.NewInt(serial),
+		Subject:               pkix.Name{CommonName: name, Organization: []string{"verif"}},
+		NotBefore:             now.Add(-24 * time.Hour),
+		NotAfter:              now.Add(24 * 365 * time.Hour),
+		IsCA:                  true,
+		BasicConstraintsValid: true,
+		KeyUsage:              x509.KeyUsageCertSign | x509.KeyUsageDigitalSignature,
+	}
+	der, err := x509.CreateCertificate(rand.Reader, t, t, &k.PublicKey, k)
+	if err != nil {
+		panic(err)
+	}
+	c, _ := x509.ParseCertificate(der)
+	return c05CA{c, k}, c05pemCert(der)
+}
+
 func c05mustKey() *ecdsa.PrivateKey {
 	k, err := ecdsa.GenerateKey(elliptic.P256(), rand.Reader)
 	if err != nil {
@@ -92,27 +181,19 @@ func getC05PKI() *c05PKI {
 		now := time.Now()
 		type ca = c05CA
 		mkCA := func(name string) ca {
-			k := c05mustKey()
 			p.serial++
-			t := &x509.Certificate{
-				SerialNumber:          big.NewInt(p.serial),
-				Subject:               pkix.Name{CommonName: name, Organization: []string{"verif"}},
-				NotBefore:             now.Add(-24 * time.Hour),
-				NotAfter:              now.Add(24 * 365 * time.Hour),
-				IsCA:                  true,
-				BasicConstraintsValid: true,
-				KeyUsage:              x509.KeyUsageCertSign | x509.KeyUsageDigitalSignature,
-			}
-			der, err := x509.CreateCertificate(rand.Reader, t, t, &k.PublicKey, k)
-			if err != nil {
-				panic(err)
-			}
-			c, _ := x509.ParseCertificate(der)
-			p.caPEM[name] = c05pemCert(der)
-			p.cas[name] = ca{c, k}
-			return ca{c, k}
+			c, pemText := c05mkCA(name, p.serial, now)
+			p.caPEM[name] = pemText
+			p.cas[name] = c
+			return c
 		}
 		caA, caB := mkCA("A"), mkCA("B")
+		if !c05SysReady {
+			// not reached in a process started for a C05 component; keeps the table total otherwise
+			c05SysCA, c05SysCAPEM = c05mkCA("S", 999, now)
+		}
+		caS := c05SysCA
+		p.cas["S"], p.caPEM["S"] = caS, c05SysCAPEM
 		mkLeaf := func(signer ca, cn string, dns []string, ips []net.IP, expired bool, usage x509.ExtKeyUsage) (c05Leaf, *ecdsa.PrivateKey) {
 			nb, na := now.Add(-24*time.Hour), now.Add(24*30*time.Hour)
 			if expired {
@@ -129,6 +210,8 @@ func getC05PKI() *c05PKI {
 		p.server["wronghost"], _ = mkLeaf(caA, "other.test", []string{"other.test"}, []net.IP{net.ParseIP("10.9.9.9")}, false, x509.ExtKeyUsageServerAuth)
 		p.server["untrusted"], _ = mkLeaf(caB, "server.test", goodNames, goodIPs, false, x509.ExtKeyUsageServerAuth)
 		p.server["expired"], _ = mkLeaf(caA, "server.test", goodNames, goodIPs, true, x509.ExtKeyUsageServerAuth)
+		p.server["sys"], _ = mkLeaf(caS, "server.test", goodNames, goodIPs, false, x509.ExtKeyUsageServerAuth) // certified by the "system" CA S
+		p.client["sys"], _ = mkLeaf(caS, "client-sys", nil, nil, false, x509.ExtKeyUsageClientAuth)
 		p.client["good"], _ = mkLeaf(caA, "client-good", nil, nil, false, x509.ExtKeyUsageClientAuth)
 		p.client["foreign"], _ = mkLeaf(caB, "client-foreign", nil, nil, false, x509.ExtKeyUsageClientAuth)
 		p.client["expired"], _ = mkLeaf(caA, "client-expired", nil, nil, true, x509.ExtKeyUsageClientAuth)
@@ -170,6 +253,7 @@ func getC05PKI() *c05PKI {
 		w("key-bad.pem", c05Garbage)
 		w("ca-A.pem", p.caPEM["A"])
 		w("ca-AB.pem", p.caPEM["A"]+p.caPEM["B"])
+		w("ca-B.pem", p.caPEM["B"])
 		w("ca-empty.pem", "")
 		w("ca-bad.pem", c05Garbage)
 		c05pki = p
@@ -242,3 +326,39 @@ func (p *c05PKI) clientLeaf(class string) c05Leaf {
 }
 
 func (p *c05PKI) file(name string) string { return filepath.Join(p.dir, name) }
+
+// ---- trust anchors: what a CA token of an op configures, and who signed a leaf ----
+
+// c05CaTokens: the CA option of a cell / history: "A" / "B" = that CA configured inline, "-" = no CA configured
+var c05CaTokens = []string{"A", "-", "B"}
+
+// c05Anchors: the trust anchors a peer may chain to under CA option `tok` - the configured CA, or, with no
+// CA configured, the system trust store of the process (CA S), which is crypto/tls's documented default.
+func c05Anchors(tok string) []string {
+	switch tok {
+	case "A", "B":
+		return []string{tok}
+	case "-":
+		return []string{"S"}
+	}
+	return nil
+}
+
+func c05SetCa(c *cert.Config, tok string) {
+	if tok == "A" || tok == "B" {
+		c.CaCertificate = getC05PKI().caPEM[tok]
+	}
+}
+
+// c05ClientCertSigner: "" = no certificate
+func c05ClientCertSigner(ccert string) string {
+	switch ccert {
+	case "none":
+		return ""
+	case "foreign":
+		return "B"
+	case "sys":
+		return "S"
+	}
+	return "A"
+}
